@@ -87,6 +87,7 @@ def run(ctx):
     out = vlib.run_model(reqs)
     l1 = l2 = 0
     samples = []
+    ssa_jobs = []
     for (src, o), line in zip(meta, out):
         parts = line.split(" # ")
         if len(parts) != 4:
@@ -155,6 +156,17 @@ def run(ctx):
                                                         "broken": "correspondence UniqueVars.rename <-> ensure_unique_variables"}, no_input=True)
         elif len(samples) < 3 and shadow_spec:
             samples.append({"source": src[:300], "occurrences": parts[0][:300], "shadowing": shadow_spec})
+        if "ssa" in o:
+            ssa_jobs.append((src, o["ssa"]))
+    # resolution survives SSA: every versioned read has a definition of the same (name, suffix, version) on every path (the
+    # Lean-verified certificate checker of C14 on this property's shadowing / look-alike programs)
+    res = vlib.run_model(["ssacheck " + vlib.sexp(x[1]) for x in ssa_jobs])
+    for (src, _), r in zip(ssa_jobs, res):
+        stats["SSA forms checked"] += 1
+        if not r.startswith("ok"):
+            l1 += 1
+            ctx.violation("resolution-ssa " + r[:60], {"stage": "L1 every read refers to a definition of the same (name, suffix, version)", "source": src,
+                                                      "checker": r[:300], "broken": None})
     # CS0001 locations through the full pipeline (file ids present): primary = shadowing declaration, secondary = shadowed one
     with vlib.Workdir("c10") as wd:
         reqs2, metas = [], []
